@@ -45,7 +45,7 @@ ASSUMPTIONS = [
     "generate_value, or the quoted message slot of single-call, v2 `bot say \"…\"` completions; `bot $var` as a generated *step* is code by design",
     "oracle: result shape check + `evaluated marker not in reply` (judge_reply, 20 lines); a violation seen on a re-used LLMRails instance is "
     "re-run on a fresh instance and only reported if it reproduces",
-    "a crash of an LLM post-processing action that the dispatcher contains (reply = internal error) counts as a broken turn; generate_value / "
+    "a crash of an LLM post-processing action that the dispatcher contains (reply = the well-formed internal-error message) satisfies the statement and is only counted as an observation; generate_value / "
     "GenerateValueAction failing on a non-literal completion is the designed containment and is only counted",
     "every turn runs under the logical step budget (v1 600k, v2 8M function entries; largest well-behaved turns seen: 45k / 2M); a v2 overrun is "
     "`nonterminating` (C10's subject, inconclusive), a v1 overrun is a verdict (generate does not complete the turn)",
@@ -559,9 +559,9 @@ def judge_reply(reply, exc, markers, failed, llm_call_exception):
         for m in markers:
             if m in c:
                 return ("taint-evaluated", m)
-    broken = [(a, t) for a, t in failed if a not in VALUE_FUNCS and t != llm_call_exception.__name__]
-    if broken:
-        return ("llm-postprocessing-crashed", "%s:%s" % broken[0])
+    # A crash of an LLM post-processing action that the dispatcher contains (the turn ends with the well-formed
+    # "internal error" message) satisfies the statement; it is counted as an observation
+    # (`contained_postprocessing_crashes`, `crash_<action>_<exception>`), not judged.
     return None
 
 
@@ -658,6 +658,10 @@ def run_case(case):
             obs["exception_role_replies"] = obs.get("exception_role_replies", 0) + 1
         if any(a in VALUE_FUNCS for a, _t in failed):
             obs["value_actions_failed_contained"] = obs.get("value_actions_failed_contained", 0) + 1
+        for a, _t in failed:
+            if a not in VALUE_FUNCS and _t != _W["LLMCallException"].__name__:
+                obs["contained_postprocessing_crashes"] = obs.get("contained_postprocessing_crashes", 0) + 1
+                obs["crash_%s_%s" % (a, _t)] = obs.get("crash_%s_%s" % (a, _t), 0) + 1
     if case["markers"]:
         obs["taint_checked_cases"] = 1
         lit = [tx for tx, mk in TAINT if tx in case["text"]]
@@ -700,7 +704,7 @@ def run_case(case):
                 failing_turn=problem["turn"],
                 replies=sample["replies"],
                 llm_calls_seen=app.kinds_seen[:12],
-                expected="generate returns {'role': 'assistant'|'exception', ...} without raising and without a crashed LLM post-processing action; planted taint not evaluated",
+                expected="generate returns {'role': 'assistant'|'exception', ...} without raising; planted taint not evaluated",
                 facts=facts,
                 config_colang=MODES[mode][1],
                 config_yaml=MODES[mode][2],
